@@ -55,6 +55,10 @@ pub fn compress_fastest<M: Matcher>(
             // Write the header, then the block
             header.serialize(output);
             output.extend_from_slice(state.matcher.get_last_space());
+            // compress_block may have remembered a new Huffman table, but a raw block does not
+            // transmit it. Forget it, or a later block could be written "treeless" against a
+            // table the decoder never received.
+            state.last_huff_table = None;
         } else {
             let header = BlockHeader {
                 last_block,
